@@ -411,7 +411,14 @@ func isRangeFuncBody(fn *ssa.Function) bool {
 // released"; a Return reached in that state is reported. `defer mu.Unlock()`
 // (directly or inside a deferred closure) releases at rundefers.
 func (c *Ctx) lockBalance(label string, mu *types.Var, fn *ssa.Function) {
-	acquires := false
+	c.lockBalanceFrom(label, mu, fn, false, nil)
+}
+
+// lockBalanceFrom: entryHeld starts the analysis with mu held (a function
+// documented as "called with mu held, releases it"); releases lists callees
+// that return with mu released.
+func (c *Ctx) lockBalanceFrom(label string, mu *types.Var, fn *ssa.Function, entryHeld bool, releases CM) {
+	acquires := entryHeld
 	deferredUnlock := false
 	var unlockIn func(f *ssa.Function) bool
 	unlockIn = func(f *ssa.Function) bool {
@@ -457,6 +464,11 @@ func (c *Ctx) lockBalance(label string, mu *types.Var, fn *ssa.Function) {
 	in := make([]bool, n)  // may hold at block entry
 	seen := make([]bool, n)
 	seen[0] = true
+	in[0] = entryHeld
+	heldBase := make([]ssa.Value, n) // the object whose mutex is (possibly) held, when it is a parameter or captured variable
+	if entryHeld && len(fn.Params) > 0 {
+		heldBase[0] = fn.Params[0]
+	}
 	work := []*ssa.BasicBlock{fn.Blocks[0]}
 	type leak struct{ at ssa.Instruction }
 	var leaks []ssa.Instruction
@@ -468,7 +480,21 @@ func (c *Ctx) lockBalance(label string, mu *types.Var, fn *ssa.Function) {
 			switch x := ins.(type) {
 			case *ssa.Call:
 				if mv, d := mutexOfCall(&x.Call); mv != nil && sameField(mv, mu) {
+					base := lockBaseOf(x.Call.Args[0])
+					if d > 0 && held && base != nil && heldBase[b.Index] == base {
+						leaks = append(leaks, ins)
+					}
 					held = d > 0
+					if held {
+						heldBase[b.Index] = base
+					}
+				} else if releases != nil && releases(&x.Call) {
+					held = false
+				}
+			case *ssa.Go:
+				// `go helper()` with the mutex held hands it over to the new goroutine
+				if releases != nil && releases(&x.Call) {
+					held = false
 				}
 			case *ssa.RunDefers:
 				if deferredUnlock {
@@ -487,6 +513,9 @@ func (c *Ctx) lockBalance(label string, mu *types.Var, fn *ssa.Function) {
 			if !seen[s.Index] || (held && !in[s.Index]) {
 				seen[s.Index] = true
 				in[s.Index] = in[s.Index] || held
+				if held && heldBase[s.Index] == nil {
+					heldBase[s.Index] = heldBase[b.Index]
+				}
 				work = append(work, s)
 			}
 		}
@@ -497,6 +526,30 @@ func (c *Ctx) lockBalance(label string, mu *types.Var, fn *ssa.Function) {
 			continue
 		}
 		reported[l] = true
+		if _, isRet := l.(*ssa.Return); !isRet {
+			c.violate(l, fn, label+"/lock-balance", fmt.Sprintf("%s: %s acquires %s on a path on which it already holds it (self-deadlock: an earlier release is missing)", label, shortName(fn), mu.Name()), nil)
+			continue
+		}
 		c.violate(l, fn, label+"/lock-balance", fmt.Sprintf("%s: %s can return still holding %s (an acquire is not released on this exit)", label, shortName(fn), mu.Name()), nil)
 	}
+}
+
+// lockBaseOf: the object owning the mutex &obj.mu when obj is a parameter or a
+// captured variable (identity is then stable across the function), else nil.
+func lockBaseOf(v ssa.Value) ssa.Value {
+	fa, ok := v.(*ssa.FieldAddr)
+	if !ok {
+		return nil
+	}
+	switch x := fa.X.(type) {
+	case *ssa.Parameter:
+		return x
+	case *ssa.FreeVar:
+		return x
+	case *ssa.UnOp:
+		if fv, ok := x.X.(*ssa.FreeVar); ok {
+			return fv
+		}
+	}
+	return nil
 }
